@@ -120,7 +120,7 @@ Fixpoint eval_f (e : cexpr) : fl :=
   end.
 
 Definition CFfloat (lib : flib) : CF fl :=
-  mkCF fl fadd fsub fmul fdiv flt fge (fpowi lib) fone.
+  mkCF fl fadd fsub fmul fdiv flt fge feq (fpowi lib) fone.
 
 (* ---- bit patterns (sign | exponent field of ew bits | prec-1 mantissa bits) ---- *)
 Variable ew : Z.
